@@ -208,7 +208,12 @@ func (i *Interpreter) pushLoadedFragment(pathset string, units []parse.SourceUni
 	i.pushSourceFragment(pathset, units, programInfo)
 
 	fmt.Fprintf(i.out, "loaded %s.\n", pathset)
-	return i.evalProgram(programInfo)
+	if err := i.evalProgram(programInfo); err != nil {
+		// A load that fails leaves the state as it was before.
+		i.popSourceFragment()
+		return err
+	}
+	return nil
 }
 
 // ParseQuery parses a query string. It can either be a predicate name,
